@@ -1265,8 +1265,8 @@ func (m *Model) readFile(c *Conn, r Req, what string) error {
 	k := int64(int32(be32(hdr)))
 	size := m.ro.obj.Size()
 	want := int64(r.N)
-	if int64(r.Off) >= size {
-		want = 0
+	if r.Off >= 1<<63 || int64(r.Off) >= size {
+		want = 0 // (the offset is an unsigned number: 2^63 and above lie behind the end of every object)
 	} else if want > size-int64(r.Off) {
 		want = size - int64(r.Off)
 	}
